@@ -792,7 +792,7 @@ func head(s []string, n int) []string {
 	return s
 }
 
-var allProfiles = []string{"C01", "C02", "C03", "C04", "C05", "C06", "C07", "C08", "C09", "C10", "C11", "C18"}
+var allProfiles = []string{"C01", "C02", "C03", "C04", "C05", "C06", "C07", "C08", "C09", "C10", "C11", "C15", "C16", "C18", "C19"}
 
 var realComponents = []string{
 	"pike server pipeline assembled by server.Start (error, fresh, responder, cache, proxy middleware)",
